@@ -31,6 +31,13 @@ pub fn handle(args: &[&str]) -> Option<String> {
     let mut out: Vec<String> = Vec::new();
     for a in args {
         let p: Vec<&str> = a.split(':').collect();
+        if let Some(rest) = a.strip_prefix("file:") {
+            // file:<hexpath>=<hexdata> : a virtual file for `import`
+            let (fp, fd) = rest.split_once('=')?;
+            cb.files
+                .insert(String::from_utf8(hex_dec(fp)?).ok()?, hex_dec(fd)?);
+            continue;
+        }
         let r: String = match p[0] {
             "load" => {
                 let src = hex_dec(p.get(1)?)?;
